@@ -368,6 +368,11 @@ Definition many_runs_1 : vfile := mkVfile TStandard [ repeat [t0] 256 ] [] [].
 Definition many_runs_7 : vfile :=
   mkVfile TStandard [ repeat [t0] 256; []; []; []; []; []; [] ] [] [].
 
+Lemma blobs_ok_nil : blobs_ok [].
+Proof. split; [vm_compute; reflexivity|]. split; [constructor|exact I]. Qed.
+Lemma gcs_ok_nil : gcs_ok [].
+Proof. split; [vm_compute; reflexivity|]. split; constructor. Qed.
+
 (** every other bound of [version_encodable] holds for the witness: only the run count
     256 of level 0 does not fit its u8 *)
 Lemma many_runs_1_almost :
@@ -380,8 +385,7 @@ Proof.
   { constructor; [|constructor]. apply Forall_forall. intros r Hr.
     apply repeat_spec in Hr. subst r. split; [vm_compute; reflexivity|].
     constructor; [|constructor]. repeat split; vm_compute; reflexivity. }
-  split; [repeat split; try (vm_compute; reflexivity); constructor|].
-  split; [repeat split; try (vm_compute; reflexivity); constructor|].
+  split; [apply blobs_ok_nil|]. split; [apply gcs_ok_nil|].
   vm_compute. reflexivity.
 Qed.
 
@@ -391,7 +395,7 @@ Qed.
 Example many_runs_1_decodes_to :
   decode_version (encode_version many_runs_1) = Some (mkVfile TStandard [ [] ] [] []) /\
   (exists rest, decode_tables_section (encode_tables_section (vf_levels many_runs_1))
-                = Ok ([ [] ], rest) /\ length rest = 9472%nat).
+                = Ok ([ [] ], rest) /\ N.of_nat (length rest) = 9472).
 Proof.
   split; [vm_compute; reflexivity|].
   eexists. split; [vm_compute; reflexivity|]. vm_compute. reflexivity.
@@ -399,9 +403,12 @@ Qed.
 
 (** with 7 levels the decoder goes on to parse the 256 runs' bytes as levels 1..6:
     level 1 gets run count 1 (the low byte of the first run's table count), that run gets
-    table count [t0.id << 24] = 16777216 and the parse dies with UnexpectedEof. *)
+    table count [t0.id << 24] = 16777216, its first "table" is read across the field
+    boundaries and the parse dies on the byte that lands in the checksum-type position
+    (here the low byte of t0's checksum): InvalidTag(("ChecksumType", 2)). With other
+    table contents the outcome is UnexpectedEof or a garbage version. *)
 Example many_runs_7_decodes_to :
-  decode_version_res (encode_version many_runs_7) = Err EEof.
+  decode_version_res (encode_version many_runs_7) = Err (EInvalidTag 2).
 Proof. vm_compute. reflexivity. Qed.
 
 Theorem version_many_runs_refuted :
@@ -517,7 +524,7 @@ Example sfa_layout_small :
     [84; 79; 67; 33; 2; 0; 0; 0] ++
     ([0;0;0;0;0;0;0;0] ++ [3;0;0;0;0;0;0;0] ++ [1; 0] ++ [97]) ++
     ([3;0;0;0;0;0;0;0] ++ [1;0;0;0;0;0;0;0] ++ [2; 0] ++ [98; 99]) ++
-    [83; 70; 65; 33; 1; 0] ++ repeat 0 16 ++ [4;0;0;0;0;0;0;0] ++ [41;0;0;0;0;0;0;0].
+    [83; 70; 65; 33; 1; 0] ++ repeat 0 16 ++ [4;0;0;0;0;0;0;0] ++ [47;0;0;0;0;0;0;0].
 Proof. vm_compute. reflexivity. Qed.
 
 Example sfa_short_file : sfa_decode [1; 2; 3] = Err EEof.
